@@ -283,6 +283,99 @@ def parseMergeAll (copied : Bool) (sectionEnv : Env) (procEnvs : List Env) : Lis
   if copied then procEnvs.map (parseMerge sectionEnv)
   else procEnvs.map fun _ => procEnvs.foldl envUpdate sectionEnv
 
+/-! ### which server the children are told about: `options.serverurl` (`ServerOptions.realize`) and the program's own
+    `serverurl=` (`_processes_from_section`)
+
+  `realize()` sets `self.serverurl = None` and then runs one loop per address family over `section.server_configs`
+  ("prefer a unix domain socket", "fall back to an inet socket"); every loop assigns `self.serverurl`, the first one stops at
+  its first server (`break`), the second one is guarded by a test of the value chosen so far.  Family, guard, break, url format
+  and the default for an empty field of EACH stage are GENERATED (`surl_stage<k>_*`); the control flow below is the loop. -/
+
+inductive Family
+  | inet
+  | unix
+deriving DecidableEq, Repr
+
+/-- one entry of `options.server_configs` (`server_configs_from_parser`) -/
+structure ServerCfg where
+  family : Family
+  host : String        -- inet: '' = every interface (`port=9001`, `:9001`, `*:9001`)
+  port : Int
+  file : String        -- unix: the socket path after `normalize_path`
+deriving DecidableEq, Repr
+
+/-- a server section of the configuration file: `[inet_http_server] port=[host:]port` (host as written, `none` without a
+    colon) or `[unix_http_server] file=…` (the path after `normalize_path`, runtime) -/
+inductive SrvSection
+  | inet (host : Option String) (port : Int)
+  | unix (file : String)
+deriving DecidableEq, Repr
+
+def asciiLower (s : String) : String := String.ofList (s.toList.map Char.toLower)
+
+/-- `datatypes.inet_address`: host lower-cased, `''` and `'*'` mean every interface -/
+def inetHost : Option String → String
+  | none => ""
+  | some h => if asciiLower h = "" || asciiLower h = "*" then "" else asciiLower h
+
+/-- `server_configs_from_parser`: all inet sections in file order, then all unix sections in file order -/
+def serverConfigsOfFile (secs : List SrvSection) : List ServerCfg :=
+  secs.filterMap (fun s => match s with
+    | .inet h p => some { family := .inet, host := inetHost h, port := p, file := "" }
+    | .unix _ => none) ++
+  secs.filterMap (fun s => match s with
+    | .unix f => some { family := .unix, host := "", port := 0, file := f }
+    | .inet _ _ => none)
+
+/-- `config['file']`, `config['host']`, `config['port']` as `%s` renders them -/
+def ServerCfg.field (s : ServerCfg) (key : String) : String :=
+  if key = "file" then s.file else if key = "host" then s.host else if key = "port" then toString s.port else ""
+
+/-- `self.serverurl = fmt % (fields…)`, a field that is empty replaced by the stage's default (`if not host: host = 'localhost'`) -/
+def stageUrl (fmt : String) (args : List String) (defaults : List (String × String)) (s : ServerCfg) : String :=
+  pyFormat fmt (args.map fun k => if (s.field k).isEmpty then (defaults.lookup k).getD (s.field k) else s.field k)
+
+def stageFamily (name : String) : Family := if name = "AF_UNIX" then .unix else .inet
+
+/-- `[if guard:] for config in [c for c in sconfigs if c['family'] is <family>]: self.serverurl = url(config) [break]` -/
+def runStage (family : String) (guard : Option String → Bool) (first : Bool) (url : ServerCfg → String)
+    (cfgs : List ServerCfg) (cur : Option String) : Option String :=
+  if guard cur then
+    match (if first then (cfgs.filter fun s => s.family = stageFamily family).head?
+           else (cfgs.filter fun s => s.family = stageFamily family).getLast?) with
+    | some s => some (url s)
+    | none => cur
+  else cur
+
+/-- `options.serverurl` after `realize()` -/
+def chooseServerUrl (cfgs : List ServerCfg) : Option String :=
+  runStage surl_stage1_family surl_stage1_guard surl_stage1_first
+      (stageUrl surl_stage1_fmt surl_stage1_args surl_stage1_defaults) cfgs
+    (runStage surl_stage0_family surl_stage0_guard surl_stage0_first
+      (stageUrl surl_stage0_fmt surl_stage0_args surl_stage0_defaults) cfgs none)
+
+def pyIsSpace (c : Char) : Bool := c = ' ' || c = '\t' || c = '\n' || c = '\r' || c = '\x0b' || c = '\x0c'
+
+/-- `str.strip()` / `.upper()` / `.lower()` (ASCII; the token compared with is ASCII) -/
+def applyNorm (n : String) (cs : List Char) : List Char :=
+  if n = "strip" then ((cs.dropWhile pyIsSpace).reverse.dropWhile pyIsSpace).reverse
+  else if n = "upper" then cs.map Char.toUpper
+  else if n = "lower" then cs.map Char.toLower
+  else cs
+
+/-- `serverurl.strip().upper() == 'AUTO'` (normalisers and token generated) -/
+def isAutoUrl (s : String) : Bool :=
+  String.ofList (serverurl_auto_norm.foldl (fun cs n => applyNorm n cs) s.toList) = serverurl_auto_token
+
+/-- `config.serverurl` of a program whose section says `serverurl=raw` (`none` = the option is absent) -/
+def configuredServerUrl : Option String → Option String
+  | none => none
+  | some s => if isAutoUrl s then none else some s
+
+/-- the child of a program whose section says `serverurl=raw`, under a supervisord whose file configures `secs` -/
+def withFileUrls (c : Cfg) (raw : Option String) (cfgs : List ServerCfg) : Cfg :=
+  { c with serverurl := configuredServerUrl raw, optServerurl := chooseServerUrl cfgs }
+
 /-! ### line protocol -/
 
 def strOfHex (s : String) : Option String :=
@@ -403,6 +496,27 @@ def showCall : Call → String
   | .write fd m => s!"write:{fd}:" ++ hexS m
   | .exit n => s!"_exit:{n}"
 
+/-- `i:<N | s<hex host>>:<port>` | `u:<s<hex file>>` -/
+def srvSectionOf (s : String) : Option SrvSection :=
+  match s.splitOn ":" with
+  | ["i", h, p] => match optStr h, p.toInt? with
+    | some h, some p => some (.inet h p)
+    | _, _ => none
+  | ["u", f] => (reqStr f).map .unix
+  | _ => none
+
+def srvSectionsOf (s : String) : Option (List SrvSection) :=
+  if s = "-" then some [] else allSome ((splitNonEmpty s ",").map srvSectionOf)
+
+def showOptStr : Option String → String
+  | none => "N"
+  | some s => hexS s
+
+def showServerCfg (s : ServerCfg) : String :=
+  match s.family with
+  | .inet => "i:" ++ hexS s.host ++ ":" ++ toString s.port
+  | .unix => "u:" ++ hexS s.file
+
 def showEv (e : Ev) : String :=
   showCall e.call ++ (match e.res with
     | none => ""
@@ -423,6 +537,15 @@ def runCase (cfg : List String) (ops : List String) : List String :=
       match envOf a, allSome (bs.map envOf) with
       | some a, some bs => "env " ++ " ".intercalate ((parseMergeAll read_config_env_copied a bs).map fun e =>
           if e.isEmpty then "-" else ",".intercalate ((sortEnv e).map fun kv => hexS kv.1 ++ ":" ++ hexS kv.2))
+      | _, _ => "bad-op"
+    | ["surl", raw, secs] =>
+      match optStr raw, srvSectionsOf secs with
+      | some raw, some secs =>
+        let cfgs := serverConfigsOfFile secs
+        let c' := withFileUrls c raw cfgs
+        "servers " ++ (if cfgs.isEmpty then "-" else ",".intercalate (cfgs.map showServerCfg)) ++
+          " url " ++ showOptStr c'.optServerurl ++ " child " ++ showOptStr c'.serverurl ++
+          " told " ++ showOptStr (envGet (childEnv c') env_key_server_url)
       | _, _ => "bad-op"
     | ["merge", a, b] =>
       match envOf a, envOf b with
